@@ -860,3 +860,22 @@ def coordinator_reuse_two_files(first: Scenario, second: Scenario, mode):
     finally:
         for n, f in old_maps.items():
             setattr(wc, n, f)
+
+
+def _sleepy(x):
+    import time
+    time.sleep(x[1])
+    return x[0]
+
+
+def p_imap_contract(rng, cpus_list):
+    """p_tqdm.p_imap (the map the coordinator uses) on tasks of seeded, very unequal durations: results must come back in
+    task order. Returns None, or (cpus, result) for the first worker count for which they do not."""
+    from p_tqdm import p_imap
+    items = [(i, rng.choice([0.0, 0.0, 0.01, 0.05, 0.15])) for i in range(24)]
+    items[0] = (0, 0.3)          # the first task finishes last
+    for c in cpus_list:
+        got = list(p_imap(_sleepy, items, num_cpus=c, disable=True))
+        if got != [i for i, _ in items]:
+            return c, got
+    return None
